@@ -56,8 +56,13 @@ let parent_sexp = function
 
 let ref_sexp = function None -> A "none" | Some v -> sexp_of_pyval v
 
+(* exceptions are compared by family: a reported path text that does not parse is (raise ype) whatever the
+   YAMLPathException subtype (this value is nested inside a result line, which common.canon_model_line does not
+   look into) *)
 let psegs_sexp (txt : char list) : t =
-  outcome_sexp (fun l -> L (List.map seg_sexp l)) (parse Auto true txt)
+  match parse Auto true txt with
+  | Raise (YPE _) -> L [A "raise"; A "ype"]
+  | r -> outcome_sexp (fun l -> L (List.map seg_sexp l)) r
 
 let rec item_sexp (v : rval) : t =
   match v with
